@@ -504,7 +504,7 @@ class Scores:
             raise ValueError("Cannot set threshold at TOPR without any values.")
         # See explanation at threshold_at_tonr()
         easy_pos_to_total_ratio = self.nb_easy_pos / self.nb_all_samples
-        topr = np.maximum(np.asarray(topr) - easy_pos_to_total_ratio, 0.0)
+        topr = np.maximum(np.asarray(topr, dtype=float) - easy_pos_to_total_ratio, 0.0)
         topr = np.minimum(topr / self.hard_ratio, 1.0)
         return self._threshold_at_ratio(
             concat_scores, topr, False, BinaryLabel.pos, method
@@ -532,7 +532,7 @@ class Scores:
         # threshold at 50% TONR on the 10% of data for which we have scores, since
         # 85% - 80% = 5% is 50% of the 10% data with scores (5% / 10%).
         easy_neg_to_total_ratio = self.nb_easy_neg / self.nb_all_samples
-        tonr = np.maximum(np.asarray(tonr) - easy_neg_to_total_ratio, 0.0)
+        tonr = np.maximum(np.asarray(tonr, dtype=float) - easy_neg_to_total_ratio, 0.0)
         tonr = np.minimum(tonr / self.hard_ratio, 1.0)
         return self._threshold_at_ratio(
             concat_scores, tonr, True, BinaryLabel.neg, method
